@@ -30,6 +30,7 @@ type Node struct {
 	Kinds      []string
 
 	L      *Ledger         // non-nil iff ChainValid
+	Ghost  *Ledger         // see Tree.GhostLedger
 	HState consensus.State // header-derived state (total work, targets, timestamps)
 
 	Children []*Node
@@ -309,6 +310,39 @@ func (t *Tree) ExtendEmpty(parent *Node, ts time.Time) *Node {
 	child := parent.Height + 1
 	blk := t.Env.SealBlock(parent.State(), ts, t.Env.A(Miner).Addr, nil, nil, child >= t.Env.Net.HardforkV2.AllowHeight)
 	return t.Attach(parent, blk, "", nil)
+}
+
+// GhostLedger returns the ledger obtained by applying the chain up to n without
+// validating the blocks that are not chain-valid (nil if that is impossible).
+// For chain-valid nodes it is the real ledger.
+func (t *Tree) GhostLedger(n *Node) *Ledger {
+	if n.L != nil {
+		return n.L
+	}
+	if n.Ghost == nil && n.Parent != nil && n.OrphanValid {
+		if pg := t.GhostLedger(n.Parent); pg != nil {
+			n.Ghost = pg.ApplyUnchecked(n.Block)
+		}
+	}
+	return n.Ghost
+}
+
+// ExtendGhost builds a block with a random body that is fully valid relative
+// to the ghost ledger of parent (a chain containing a header-valid but invalid
+// block, as a peer serving pre-validated chunks would continue it).
+func (t *Tree) ExtendGhost(parent *Node, prof Profile) *Node {
+	g := t.GhostLedger(parent)
+	if g == nil {
+		return nil
+	}
+	bb := g.NewBuilder(t.Rng)
+	t.RandomBody(bb, prof)
+	child := parent.Height + 1
+	blk := bb.Seal(t.nextTimestamp(parent, true), t.minerFor(prof), child >= t.Env.Net.HardforkV2.AllowHeight)
+	if g.Validate(blk) != nil {
+		return nil
+	}
+	return t.Attach(parent, blk, "", append(bb.Kinds, "ghost"))
 }
 
 // ExtendHeaderOnly builds an (empty) block on a parent that is not chain-valid.
